@@ -20,6 +20,7 @@ emitting *events* for everything that touches the subject's storage:
     ("construct", clsname, args, kwargs, node, fi)
     ("compare", op, left, right, node, fi) every evaluated comparison (also those inside comprehensions)
     ("stub", name, args, node, fi)         call of a stub function value
+    ("iter", element, iterable, node, fi)  a for loop binds its element term to the items of the iterable term
 
 A rule supplies an automaton (``on_event(auto, event, st) -> auto``) whose state is part of the explored state, so
 loops terminate on a fixpoint of (node, environment, facts, automaton state).
@@ -530,6 +531,7 @@ class Exec:
                 for itv, s in self.ev(a.iter, st, fr):
                     s = self._reads_in(itv, s, fr, a, "__iter__")
                     el = f"__e{a.lineno}_{a.col_offset}__"
+                    s = self.emit(s, ("iter", el, itv, a, fr.fi))
                     s_t = s.kill(lambda key, el=el: el in key)
                     for s2 in self.assign(a.target, el, s_t, fr, a):
                         results.append(("T", s2))
